@@ -434,6 +434,25 @@ impl Prop for ConnProp {
     }
 
     fn systematic(&self, tier: Tier) -> Vec<Value> {
+        if self.id == "C08" {
+            // component sub-check (hook H5): open failures reported through the real ProtocolSet
+            // reach a slow protocol exactly once and in order, whatever the state of its queue
+            let n = if tier == Tier::Quick { 200 } else { 3000 };
+            let mut v = Vec::new();
+            for k in 0..n {
+                let mut rng = Rng::fork(k as u64, "c08-open-failures");
+                v.push(json!({
+                    "property": "C08", "seed": 7000 + k as u64, "mode": "open_failures",
+                    "sched": SchedKind::gen(&mut rng, 300),
+                    "capacity": rng.range(1, 4),
+                    "failures": rng.range(1, 12),
+                    "established_first": rng.chance(1, 2),
+                    "reader_delay_ms": *rng.pick(&[0u64, 0, 3, 50, 2000]),
+                    "reader_gap_ms": *rng.pick(&[0u64, 0, 1, 20]),
+                }));
+            }
+            return v;
+        }
         if self.id != "C07" {
             return Vec::new();
         }
@@ -456,6 +475,9 @@ impl Prop for ConnProp {
     fn run(&self, case: &Value, verbose: bool) -> RunOutput {
         if case["mode"] == "protocol_set" {
             return run_protocol_set(case, verbose);
+        }
+        if case["mode"] == "open_failures" {
+            return run_open_failures(case, verbose);
         }
         if case["mode"] == "clone" {
             return crate::props::c06x::run_clone(case, verbose);
@@ -702,7 +724,11 @@ impl Prop for ConnProp {
                     let s = f["at_ms"].as_u64().unwrap_or(0) * 1_000_000;
                     (f["node"].as_u64().unwrap_or(0) as usize, s, s + f["heal_after_ms"].as_u64().unwrap_or(0) * 1_000_000)
                 }).collect();
-                let ctx = Ctx { log: &log, dead: &dead, table: &table, known: &known, n, total, seed, end_ns, max_in, max_out, sub_open_ms: sub_open, t_final_ns: t_final * 1_000_000, any_net_fault: !faults.is_empty(), no_probe_b: &no_probe_b, freezes: &freezes };
+                let partitions: Vec<(usize, usize, u64, u64)> = faults.iter().filter(|f| f["kind"] == "partition").map(|f| {
+                    let s = f["at_ms"].as_u64().unwrap_or(0) * 1_000_000;
+                    (f["a"].as_u64().unwrap_or(0) as usize, f["b"].as_u64().unwrap_or(0) as usize, s, s + f["heal_after_ms"].as_u64().unwrap_or(0) * 1_000_000)
+                }).collect();
+                let ctx = Ctx { log: &log, dead: &dead, table: &table, known: &known, n, total, seed, end_ns, max_in, max_out, sub_open_ms: sub_open, t_final_ns: t_final * 1_000_000, any_net_fault: !faults.is_empty(), no_probe_b: &no_probe_b, freezes: &freezes, partitions: &partitions };
                 let vs = ctx.check();
                 for (class, detail) in vs.iter() {
                     h.probe(&format!("oracle-hit:{}", class.split(':').next().unwrap_or("")));
@@ -740,6 +766,8 @@ struct Ctx<'a> {
     no_probe_b: &'a BTreeSet<usize>,
     /// process stalls of the plan: (node, start ns, end ns)
     freezes: &'a [(usize, u64, u64)],
+    /// partitions of the plan: (host a, host b, start ns, heal ns)
+    partitions: &'a [(usize, usize, u64, u64)],
     any_net_fault: bool,
 }
 
@@ -1103,9 +1131,14 @@ impl<'a> Ctx<'a> {
                 if !err.contains("MaxOutgoingConnectionsExceeded") {
                     continue;
                 }
-                // a stalled process learns of a close only after it resumes
-                let lag = |d: u64| self.freezes.iter().filter(|f| f.0 == i && f.1 <= r.t && f.2 >= d).map(|f| f.2).max().unwrap_or(d).max(d);
-                let upper = self.table.iter().filter(|c| c.1.ip() == node_ip(i) && c.4 <= r.t && c.3.map_or(true, |d| lag(d) + 2_000_000_000 > r.t)).count() as u64;
+                // a stalled process learns of a close only after it resumes, and the far end's close
+                // crosses a partition only when it heals
+                let lag = |d: u64, remote: std::net::IpAddr| {
+                    let f = self.freezes.iter().filter(|f| f.0 == i && f.1 <= r.t && f.2 >= d).map(|f| f.2).max().unwrap_or(d);
+                    let p = self.partitions.iter().filter(|p| ((node_ip(p.0) == node_ip(i) && node_ip(p.1) == remote) || (node_ip(p.1) == node_ip(i) && node_ip(p.0) == remote)) && p.2 <= r.t && p.3 >= d).map(|p| p.3).max().unwrap_or(d);
+                    f.max(p).max(d)
+                };
+                let upper = self.table.iter().filter(|c| c.1.ip() == node_ip(i) && c.4 <= r.t && c.3.map_or(true, |d| lag(d, c.2.ip()) + 2_000_000_000 > r.t)).count() as u64;
                 if upper < m {
                     v.push(("c06:dial-refused-below-limit".into(), format!("node {i}: {what} at {:.3}s refused with MaxOutgoingConnectionsExceeded, max_outgoing_connections = {m}, but this node had opened at most {upper} connection(s) that were alive or had ended within the last 2 s", r.t as f64 / 1e9)));
                     break;
@@ -1262,5 +1295,65 @@ fn run_protocol_set(case: &Value, verbose: bool) -> RunOutput {
             });
         }
         Box::new(|| {})
+    })
+}
+
+/// C08 component sub-check (hook H5): `ProtocolSet::report_substream_open_failure` towards a
+/// protocol whose event queue is small and read slowly. Every reported failure must arrive, once,
+/// in the order reported.
+fn run_open_failures(case: &Value, verbose: bool) -> RunOutput {
+    use litep2p::verif::protocol_set::{Harness, Seen};
+    let case = case.clone();
+    let seed = case["seed"].as_u64().unwrap_or(0);
+    let sched = SchedKind::from_json(&case["sched"]);
+    run_sim(seed, sched, Duration::from_secs(120), 1_000_000, verbose, move |handle: Handle| {
+        let cap = case["capacity"].as_u64().unwrap_or(1) as usize;
+        let m = case["failures"].as_u64().unwrap_or(3) as usize;
+        let (mut harness, mut queues, _mgr) = Harness::new(peer_id(seed, 2), 1, cap);
+        let mut q = queues.remove(0);
+        let got: Arc<Mutex<Vec<usize>>> = Arc::new(Mutex::new(Vec::new()));
+        let results: Arc<Mutex<Vec<String>>> = Arc::new(Mutex::new(Vec::new()));
+        let (d0, gap) = (case["reader_delay_ms"].as_u64().unwrap_or(0), case["reader_gap_ms"].as_u64().unwrap_or(0));
+        {
+            let got = got.clone();
+            handle.spawn(1, "protocol-reader", async move {
+                tokio::time::sleep(Duration::from_millis(d0)).await;
+                while let Some(ev) = q.next().await {
+                    if let Seen::OpenFailure(id) = ev {
+                        got.lock().unwrap().push(id);
+                    }
+                    if gap > 0 {
+                        tokio::time::sleep(Duration::from_millis(gap)).await;
+                    }
+                }
+            });
+        }
+        {
+            let h = handle.clone();
+            let results = results.clone();
+            let est = case["established_first"].as_bool().unwrap_or(false);
+            handle.spawn(1, "connection-task", async move {
+                if est {
+                    let _ = harness.report_connection_established().await;
+                }
+                for k in 0..m {
+                    let r = harness.report_substream_open_failure(0, 100 + k).await;
+                    results.lock().unwrap().push(format!("{r:?}"));
+                }
+                h.probe("open-failures-reported");
+                // give the reader time to drain, then end the run
+                tokio::time::sleep(Duration::from_secs(30)).await;
+                h.stop();
+                drop(harness);
+            });
+        }
+        let h = handle.clone();
+        Box::new(move || {
+            let got = got.lock().unwrap().clone();
+            let want: Vec<usize> = (0..m).map(|k| 100 + k).collect();
+            if got != want {
+                h.violation("c08:open-failure-lost", format!("protocol set: {m} failed opens were reported to a protocol with an event queue of {cap} (reader starts after {d0} ms, {gap} ms between reads); the protocol received {got:?}, expected {want:?}; results on the connection side: {:?}", results.lock().unwrap()));
+            }
+        })
     })
 }
